@@ -32,9 +32,26 @@ class Comm(object):
     def __init__(self):
         self.sent = []
         self.streaming = False
+        self.paused = False
 
     def isStreaming(self):  # noqa: N802
         return self.streaming
+
+    # (the rest of MachineCom's state queries, as during a print from a local file - or while that print is paused)
+    def isPrinting(self):  # noqa: N802
+        return not self.paused
+
+    def isPaused(self):  # noqa: N802
+        return self.paused
+
+    def isOperational(self):  # noqa: N802
+        return True
+
+    def isSdPrinting(self):  # noqa: N802
+        return False
+
+    def isBusy(self):  # noqa: N802
+        return not self.paused
 
     def sendCommand(self, command, **kwargs):  # noqa: N802  pylint: disable=unused-argument
         self.sent.append(command)
@@ -94,7 +111,8 @@ class DirectFilter(object):
 
     def at(self, cmd, params, streaming=False):
         self.comm.sent = []
-        self.comm.streaming = streaming
+        self.comm.streaming = streaming is True
+        self.comm.paused = streaming == "paused"       # the @-command arrives while the print is paused
         rv = self.handlers.handleAtCommand(self.comm, cmd, params)
         return rv, list(self.comm.sent)
 
@@ -342,8 +360,8 @@ def run(case, filter_factory=DirectFilter, stop_on_exception=True, observer=None
             except Exception as exc:  # pylint: disable=broad-except
                 it.exception = "%s: %s" % (type(exc).__name__, exc)
         elif it.kind == "at":
-            streaming = bool(item[3]) if len(item) > 3 else False
-            for act in atm.actions(item[1], item[2], streaming):
+            streaming = item[3] if len(item) > 3 else False
+            for act in atm.actions(item[1], item[2], streaming is True):
                 if act == "disable":
                     if enabled and is_open:
                         is_open = False
